@@ -175,6 +175,8 @@ impl RustCodeGenerator {
             r#type.to_const_lit_string(),
             if let RustType::Complex(..) = r#type {
                 format!("{}::new({})", r#type.to_const_lit_string(), value)
+            } else if let RustType::VecU8(..) = r#type {
+                format!("&{}", value)
             } else {
                 value.to_string()
             }
